@@ -39,6 +39,8 @@ SAN_FLAGS = {
     "asan": ["-O1", "-g1", "-fsanitize=address,undefined", "-fno-sanitize-recover=undefined",
              "-fno-omit-frame-pointer"],
     "plain": ["-O2", "-g1"],
+    # line coverage of the library under the harness (tools/coverage.py only; never used by a check)
+    "cov": ["-O0", "-g1", "--coverage", "-DVERIF_COVERAGE=1"],
 }
 
 LIB_SOURCES = [
@@ -64,7 +66,7 @@ ENGINES = {
         wraps=WRAPS + ["pthread_mutex_lock", "pthread_mutex_unlock"], libs=[]),
     "compsim": dict(
         sources=["kernel/simheap.cpp", "kernel/engine.cpp", "wrap/wrap.cpp", "compsim/main.cpp",
-                 "compsim/gen.cpp", "compsim/comps_a.cpp", "compsim/comps_b.cpp", "compsim/wrap.cpp",
+                 "compsim/gen.cpp", "compsim/comps_a.cpp", "compsim/comps_b.cpp", "compsim/comps_c.cpp", "compsim/wrap.cpp",
                  "compsim/smart.cpp", "compsim/joint.cpp", "compsim/deep.cpp", "compsim/cont.cpp", "compsim/cont_0.cpp",
                  "compsim/cont_1.cpp", "compsim/cont_2.cpp", "compsim/cont_3.cpp", "compsim/cont_4.cpp",
                  "compsim/cont_5.cpp", "compsim/cont_6.cpp", "compsim/cont_7.cpp", "compsim/cont_8.cpp", "compsim/cont_9.cpp", "compsim/cont_10.cpp"],
